@@ -1,7 +1,7 @@
 CONSTANTS
   MaxReq = 3
-  Kinds <- AllKinds
-  GapKinds <- Gaps01
+  Kinds <- IdleKinds
+  GapKinds <- Gaps023
   UniformGaps = FALSE
   PipeCap = 2
   BigChunks = 3
